@@ -16,6 +16,7 @@ from typing_extensions import Literal
 
 from spil import Sid
 from spil.sid.read.finder import Finder
+from spil.sid.read.finders.find_glob import last_per_group
 
 from spil.util.log import debug, warning
 from spil.conf import get_finder_for  # type: ignore  # dynamic config
@@ -119,6 +120,20 @@ class FindInAll(Finder):  # noqa
         """
         # we start by unfolding
         search_sids: List[Sid] = unfold_search(search_sid)
+
+        # A sorted search ('>') is resolved once, over the merged results of all delegated Finders.
+        # (delegating it would return one "last" per Finder and typed search, instead of one per group)
+        if any(ssid.string.count(">") for ssid in search_sids):
+            index = str(search_sids[0]).split("/").index(">")
+            founds: List[str] = []
+            for ssid in search_sids:
+                founds.extend(self.find(ssid.uri.replace(">", "*"), as_sid=False))
+            for found in last_per_group(founds, index):
+                if as_sid:
+                    yield Sid(found)
+                else:
+                    yield found
+            return
 
         # Dictionary to map a Finder to a list of Sids it should find.
         finder_to_searches: Dict[Finder, List[Sid]] = {}
